@@ -73,7 +73,7 @@ class C17(Prop):
                    "foreign occupation = a UDP socket bound without SO_REUSEADDR"]
     anchors = ["aioswitcher.bridge:SwitcherBridge.start", "aioswitcher.bridge:SwitcherBridge.stop",
                "aioswitcher.bridge:SwitcherBridge.__aenter__", "aioswitcher.bridge:SwitcherBridge.__aexit__"]
-    min_evaluations = {"quick": 3_000, "thorough": 60_000}
+    min_evaluations = {"quick": 15_000, "thorough": 150_000}
     budget_s = {"quick": 90, "thorough": 900}
 
     def selftest(self):
@@ -101,7 +101,7 @@ class C17(Prop):
                     if i % nshards == shard:
                         yield {"nports": nports, "history": list(h), "exhaustive": True}
                     i += 1
-        n_rand = {"quick": 480, "thorough": 30_000}[tier]
+        n_rand = {"quick": 3_200, "thorough": 40_000}[tier]
         for j in range(n_rand):
             if i % nshards == shard:
                 r = env.rng("C17", seed, j)
